@@ -201,8 +201,17 @@ func cmdCheck(args []string) {
 	{
 		var retry []*Oblig
 		first := map[*Oblig]*SolveResult{}
+		listed, _ := loadKnown(filepath.Join(*verif, "known-findings.txt"))
+		isListed := func(name string) bool {
+			for i := range listed {
+				if listed[i].prop == *prop && (listed[i].oblig == name || listed[i].oblig == stripReturnSuffix(name)) {
+					return true
+				}
+			}
+			return false
+		}
 		for _, o := range obs {
-			if o.Result != nil && !o.Cover && (o.Result.Status == "timeout" || o.Result.Status == "unknown") {
+			if o.Result != nil && !o.Cover && (o.Result.Status == "timeout" || o.Result.Status == "unknown") && !isListed(o.Name) {
 				retry = append(retry, o)
 			}
 		}
